@@ -115,10 +115,12 @@ func Singles() []imap.SearchCriteria {
 	for _, h := range []imap.SearchCriteriaHeaderField{{Key: "Subject", Value: "hello"}, {Key: "Subject", Value: ""}, {Key: "X-Foo", Value: ""}, {Key: "From", Value: "bob"}, {Key: "from", Value: "ALICE"}, {Key: "To", Value: "carol"}} {
 		p = append(p, imap.SearchCriteria{Header: []imap.SearchCriteriaHeaderField{h}})
 	}
-	for _, s := range []string{"alpha", "beta", "gamma", "zeta"} {
+	// (strings that contain one another, in both cases of letters: "alph" < "alpha" < "alpha beta",
+	// and messages exist that contain the shorter one only)
+	for _, s := range []string{"alpha", "beta", "gamma", "zeta", "alph", "alpha beta", "ALPHA B", "only alpha"} {
 		p = append(p, imap.SearchCriteria{Body: []string{s}})
 	}
-	for _, s := range []string{"hello", "alpha", "bob", "X-Foo"} {
+	for _, s := range []string{"hello", "alpha", "bob", "X-Foo", "alph", "alpha beta", "Alpha Here"} {
 		p = append(p, imap.SearchCriteria{Text: []string{s}})
 	}
 	for _, f := range []imap.Flag{imap.FlagSeen, imap.FlagDeleted, "kw1", "\\SEEN", "\\Recent", imap.FlagAnswered} {
